@@ -44,7 +44,23 @@ fn verify(u: Unimock) -> Option<String> {
 
 /// Mock B: `b3` answers 20 + x for x in `accept`, everything else is "no matching pattern"; an optional
 /// exact expectation on `b2` that the script may or may not meet.
-fn build_b(accept: u8, expect_b2: bool) -> Unimock {
+fn build_b(accept: u8, expect_b2: bool, self_lend: Option<Arc<Mutex<Option<Unimock>>>>) -> Unimock {
+    if let Some(cell) = self_lend {
+        // B can lend a value that owns a clone of B itself
+        let b3 = BetaMock::b3
+            .each_call(&move |m| {
+                m.func(move |x: &u8, _| (accept >> (*x & 3)) & 1 == 1);
+            })
+            .answers(&|_, x| 20 + x as u64);
+        let lend = XLendMock::lend_holder
+            .each_call(matching!(_))
+            .answers_arc(Arc::new(move |u: &Unimock, _x: u8| u.make_ref(Holder { _inner: cell.lock().unwrap().take().expect("a clone of B is there") })));
+        return if expect_b2 {
+            Unimock::new((b3, lend, BetaMock::b2.some_call(matching!(_, _)).returns(7u64)))
+        } else {
+            Unimock::new((b3, lend))
+        };
+    }
     let b3 = BetaMock::b3
         .each_call(&move |m| {
             m.func(move |x: &u8, _| (accept >> (*x & 3)) & 1 == 1);
@@ -74,7 +90,12 @@ fn drive(seed: u64) -> Outcome {
     let accept = (rng.next() as u8) & 0xf;
     let expect_b2 = rng.chance(1, 2);
     let expect_a1 = rng.chance(1, 2);
-    let b = build_b(accept, expect_b2);
+    // deep variant: B's original sits at the far end of a chain of clones of A, each owned by a value the
+    // next one lent; B may itself have lent a value that owns a clone of B
+    let depth = if ownership && rng.chance(1, 3) { rng.range(2, 24) } else { 1 };
+    let b_self_lend = ownership && rng.chance(1, 2);
+    let b_self_cell: Arc<Mutex<Option<Unimock>>> = Arc::new(Mutex::new(None));
+    let b = build_b(accept, expect_b2, if b_self_lend { Some(b_self_cell.clone()) } else { None });
     // what A's answer function reaches B through (taken away before B is verified)
     let b_for_a: Arc<Mutex<Option<Unimock>>> = Arc::new(Mutex::new(Some(b.clone())));
     // B's original, for the variant in which a value lent by A owns it
@@ -148,18 +169,39 @@ fn drive(seed: u64) -> Outcome {
     // --- teardown
     *b_for_a.lock().unwrap() = None; // A's answer function lets go of its clone of B
     let mut shape = crate::rng::Sig::new();
-    shape.add_str(&format!("{ownership}{accept}{expect_a1}{expect_b2}{a_unmet}{b_unmet}{}", b_errors.len()));
+    shape.add_str(&format!("{ownership}{accept}{expect_a1}{expect_b2}{a_unmet}{b_unmet}{}{depth}{b_self_lend}", b_errors.len()));
     let va;
     if ownership {
         // B's original moves into a value lent by a clone of A; a clone of B may stay alive outside
         let b_clone_alive = rng.chance(1, 3);
         let keep = if b_clone_alive { Some(b.clone()) } else { None };
-        *b_original.lock().unwrap() = Some(b);
-        let a2 = a.clone();
-        let lent = catch_unwind(AssertUnwindSafe(|| {
-            let _ = a2.lend_holder(0);
-        }));
-        if lent.is_err() {
+        if b_self_lend {
+            *b_self_cell.lock().unwrap() = Some(b.clone());
+            if catch_unwind(AssertUnwindSafe(|| {
+                let _ = b.lend_holder(0);
+            }))
+            .is_err()
+            {
+                violations.push(v("C18", "cross-call-outcome", "lend_holder", "B lending a value that owns a clone of B panicked".to_string()));
+            }
+            faults.push("released_original_has_lent_a_clone_of_itself");
+        }
+        let mut inner = b;
+        let mut lent_ok = true;
+        for _ in 0..depth {
+            *b_original.lock().unwrap() = Some(inner);
+            let c = a.clone();
+            lent_ok &= catch_unwind(AssertUnwindSafe(|| {
+                let _ = c.lend_holder(0);
+            }))
+            .is_ok();
+            inner = c;
+        }
+        let a2 = inner;
+        if depth >= 8 {
+            faults.push("chain_of_eight_or_more_nested_owners");
+        }
+        if !lent_ok {
             violations.push(v("C18", "cross-call-outcome", "lend_holder", "lending a value that owns another mock panicked".to_string()));
         }
         // dropping the clone of A releases the holder and with it B's original, which verifies now
